@@ -30,4 +30,44 @@ theorem getLpm_eq_cover_last {m : PMap w V} (h : m.TreeWF) (q : Pfx w) :
   show orElse (covering m.root q).getLast? none = (covering m.root q).getLast?
   cases (covering m.root q).getLast? <;> rfl
 
+/-- `get_spm` / `get_spm_prefix` / the set's `get_spm` return the first element of that sequence
+(`None` when it is empty) -/
+theorem getSpm_eq_cover_head (m : PMap w V) (q : Pfx w) : m.getSpm q = (m.cover q).head? :=
+  Tree.getSpm_eq m.root q
+
+theorem getSpmPrefix_eq (m : PMap w V) (q : Pfx w) : m.getSpmPrefix q = ((m.cover q).head?).map (·.1) := by
+  unfold PMap.getSpmPrefix; rw [getSpm_eq_cover_head]
+
+/-- so shortest-prefix match is a stored entry covering `q` of least length -/
+theorem getSpm_shortest {m : PMap w V} (h : m.TreeWF) (q : Pfx w) (e : Pfx w × V) (he : m.getSpm q = some e)
+    (e' : Pfx w × V) (h1 : e' ∈ m.entries) (h2 : e'.1.net <+: q.net) : e.1.len ≤ e'.1.len := by
+  rw [getSpm_eq_cover_head] at he
+  have hm : e' ∈ m.cover q := (mem_cover_iff h q e').2 ⟨h1, h2⟩
+  have hs := cover_sorted h q
+  cases hc : m.cover q with
+  | nil => rw [hc] at hm; simp at hm
+  | cons x xs =>
+    rw [hc] at he hm hs
+    simp only [List.head?_cons, Option.some.injEq] at he
+    subst he
+    rcases List.mem_cons.1 hm with rfl | hm
+    · exact Nat.le_refl _
+    · exact Nat.le_of_lt ((List.pairwise_cons.1 hs).1 e' hm)
+
+/-- cover after exhaustion: the model's drain is a finite list; `Cover::next` on a finished
+descent re-evaluates a non-`Enter` direction and returns `None` again (correspondence-checked) -/
+theorem cover_finite (m : PMap w V) (q : Pfx w) : (m.cover q).length ≤ m.root.size := by
+  unfold PMap.cover Tree.cover
+  suffices ∀ t : Tree w V, t.pvList.length + (coverGo t q).length ≤ t.size by simpa using this m.root
+  intro t
+  induction t with
+  | nil => simp [pvList, pv, coverGo, Tree.size]
+  | node s p v l r ihl ihr =>
+    have hpv : (Tree.node s p v l r).pvList.length ≤ 1 := by cases v <;> simp [pvList, pv]
+    unfold coverGo
+    split
+    · simp only [List.length_append, Tree.size] at *; omega
+    · simp only [List.length_append, Tree.size] at *; omega
+    · simp only [List.length_nil, Tree.size]; omega
+
 end PT.C09
